@@ -327,26 +327,6 @@ pub proof fn lemma_three(op: BoolSym, v: Vec<Expression>, x: Expression, y: Expr
         else { lemma_or3_3(sem3(x, ids, d), sem3(y, ids, d), sem3(z, ids, d)); }
     }
 }
-pub proof fn lemma_has_ident_elem(op: BoolSym, v: Vec<Expression>, i: int)
-    requires 0 <= i < v.len(), has_ident(v[i]),
-    ensures has_ident(Expression::BooleanGroup(op, v)),
-{
-    let e = Expression::BooleanGroup(op, v);
-    assert(e->BooleanGroup_1 == v);
-    assert(has_ident(e) == (exists|k: int| 0 <= k < v.len() && has_ident(#[trigger] v[k])));
-}
-
-pub proof fn lemma_sems_defined(op: BoolSym, v: Vec<Expression>, ids: Ids, d: DocM)
-    ensures
-        sems(v, ids, d, Expression::BooleanGroup(op, v)).len() == v.len(),
-        forall|i: int| 0 <= i < v.len() ==> #[trigger] sems(v, ids, d, Expression::BooleanGroup(op, v))[i] == sem3(v[i], ids, d),
-{
-    let e = Expression::BooleanGroup(op, v);
-    assert forall|i: int| 0 <= i < v.len() implies decreases_to!(e => #[trigger] v[i]) && lvl(v[i]) <= lvl(e) by {
-        if has_ident(v[i]) { lemma_has_ident_elem(op, v, i); }
-    }
-}
-
 pub open spec fn vec_of_one_ok(v: Vec<Expression>) -> bool { true }
 pub proof fn lemma_vec_of_one()
     ensures forall|e: Expression| #[trigger] vec_of_one(e)@ =~= seq![e],
